@@ -585,6 +585,12 @@ func (g *Eng) snapStep(op string) string {
 			// a second snapshot while the first is parked: runs to its own end (ErrSnapshotInProgress)
 			return errStr(g.e.WriteSnapshot())
 		}
+		if g.e.VerifCacheStoreCount() == 0 && !g.failedSnap {
+			// nothing to snapshot: WriteSnapshot returns without reaching the commit steps
+			// (Cache size accounting decides between `Size()==0 => ClearSnapshot` and writing
+			// zero files; both end with no snapshot in flight) — run it to its end
+			return errStr(g.e.WriteSnapshot())
+		}
 		ctl.mu.Lock()
 		ctl.stepping = true
 		ctl.reached = make(chan string)
